@@ -61,13 +61,16 @@ end PandasSem
 namespace PandasMerge
 open Rel
 
-/-- `PandasMergeEngine.merge`: the four joins go to `pd.merge` with the mapped `how`, append is `pd.concat`,
-union is append followed by `drop_duplicates()` (NaN equal to NaN) -/
-def merge (t : JoinType) (lk rk ls rs : List Col) (L R : Table) : Table :=
+def missingKey : String := "KeyError: key column not in table"
+
+/-- `PandasMergeEngine.merge`: the four joins go to `pd.merge` with the mapped `how` (which raises `KeyError` when a key
+column is not a column of its table), append is `pd.concat`, union is append followed by `drop_duplicates()` (NaN equal to
+NaN) -/
+def merge (t : JoinType) (lk rk ls rs : List Col) (L R : Table) : Except String Table :=
   match t with
-  | .append => PandasSem.concat ls rs L R
-  | .union => dedup (PandasSem.concat ls rs L R)
-  | t => PandasSem.merge t lk rk ls rs L R
+  | .append => .ok (PandasSem.concat ls rs L R)
+  | .union => .ok (dedup (PandasSem.concat ls rs L R))
+  | t => if (∀ c ∈ lk, c ∈ ls) ∧ (∀ c ∈ rk, c ∈ rs) then .ok (PandasSem.merge t lk rk ls rs L R) else .error missingKey
 
 end PandasMerge
 
@@ -98,9 +101,12 @@ open Rel
 
 def rightIndexName : Col := "mloda_right_index"
 
-/-- `PyArrowMergeEngine.join_logic` -/
+def missingKey : String := "ArrowInvalid: No match or multiple matches for key field reference"
+
+/-- `PyArrowMergeEngine.join_logic` (a key column that is not a column of its table makes pyarrow raise) -/
 def joinLogic (t : JoinType) (lk rk ls rs : List Col) (L R : Table) : Except String Table :=
-  if lk.length > 1 ∨ rk.length > 1 then
+  if ¬ ((∀ c ∈ lk, c ∈ ls) ∧ (∀ c ∈ rk, c ∈ rs)) then .error missingKey
+  else if lk.length > 1 ∨ rk.length > 1 then
     .ok (ArrowSem.tableJoin t lk rk ls rs L R)
   else
     match lk, rk with
